@@ -3,7 +3,12 @@ use crate::state::{State, StateEntry, COMPONENT};
 use crate::streaming::persistence::persister::PersisterKind;
 use crate::streaming::utils::file;
 use crate::versioning::SemanticVersion;
+#[cfg(not(kani))]
 use bytes::{Buf, BufMut, Bytes, BytesMut};
+#[cfg(kani)]
+use bytes::{Buf, Bytes};
+#[cfg(kani)]
+use iggy::verif_model::bytesmut::{BufMut, BytesMut};
 use error_set::ErrContext;
 use iggy::bytes_serializable::BytesSerializable;
 use iggy::error::IggyError;
